@@ -56,7 +56,7 @@ QFREE_EXCEPTIONS = {
 
 def guard_text(fn, node) -> List[str]:
     out = []
-    for t, pol in G.enclosing_tests(fn, node):
+    for t, pol in G.path_conditions(fn, node):
         x = A.norm(t)
         if not pol:
             x = x[3:] if x.startswith("not") else "not" + x
@@ -230,7 +230,7 @@ def check_peephole(ctx):
                 ctx.fn(f"Builder.{name}")
                 want = A.norm(tgt)
                 conj = []
-                for t, pol in G.enclosing_tests(fn, st):
+                for t, pol in G.path_conditions(fn, st):
                     if pol:
                         def flat(x):
                             if isinstance(x, ast.BoolOp) and isinstance(x.op, ast.And):
@@ -270,10 +270,10 @@ def check_relocation(ctx):
     ok = ok and len(ren) == 1 and A.norm(ren[0].value) == newv[0]
     # the rename is outside the peephole if/else (both paths) and inside `if q.qubit_id == virtual_address`
     if ok:
-        tests = [A.norm(t) for t, pol in G.enclosing_tests(fu, ren[0]) if pol]
-        anyt = [A.norm(t) for t, pol in G.enclosing_tests(fu, ren[0])]
+        tests = [A.norm(t) for t, pol in G.path_conditions(fu, ren[0]) if pol]
+        anyt = [A.norm(t) for t, pol in G.path_conditions(fu, ren[0])]
         h = A.norm(ren[0].targets[0].value)
-        ok = f"{h}.qubit_id==virtual_address" in tests and not any("pending_commands" in t for t in anyt)
+        ok = (f"{h}.qubit_id==virtual_address" in tests or f"virtual_address=={h}.qubit_id" in tests) and not any("pending_commands" in t for t in anyt)
     ctx.check("C09.M", "_build_cmds_free_up_qubit_location:handle-renamed-on-both-paths", ok, "after relocating, the handle that occupied the address is not renamed to the new (unused) address on every path", b.loc(fu))
     mvcalls = [c for c in A.calls_in(fu) if A.is_self_attr(c.func, "_build_cmds_move_qubit")]
     ok = len(mvcalls) == 1 and A.norm(A.kwargs_of(mvcalls[0]).get("source", ast.Constant(value=0))) == "virtual_address" and newv and A.norm(A.kwargs_of(mvcalls[0]).get("target", ast.Constant(value=0))) == newv[0]
@@ -342,8 +342,8 @@ def check_new_handle_ids(ctx):
                         for x in ast.walk(st):
                             if isinstance(x, ast.Assert) and A.norm(x.test) in (f"notself._mem_mgr.is_qubit_id_used({e.id})",):
                                 # the assert may sit in the non-zero arm of `if id == 0`
-                                outer = [(A.norm(tt), pol) for tt, pol in G.enclosing_tests(fn, call)]
-                                t = [(A.norm(tt), pol) for tt, pol in G.enclosing_tests(fn, x)]
+                                outer = [(A.norm(tt), pol) for tt, pol in G.path_conditions(fn, call)]
+                                t = [(A.norm(tt), pol) for tt, pol in G.path_conditions(fn, x)]
                                 t = [y for y in t if y not in outer]
                                 if not t or (all(txt == f"{e.id}==0" and not pol for txt, pol in t) and freed0):
                                     asserted = True
